@@ -93,18 +93,19 @@ func (c c17Cfg) String() string {
 }
 
 type c17World struct {
-	cfg       c17Cfg
-	root      string
-	m         *samlsp.Middleware
-	t0        time.Time
-	notchT    []time.Time
-	delay     time.Duration
-	memo      map[string]*c17Reply
-	users     []string
-	urls      []string
-	impl      int
-	artifacts map[string][]byte // artifact value -> the Response the stub resolver hands out (configurations "...+artifact")
-	dflt      string            // where a login without RelayState lands: the library default "/" or a configured DefaultRedirectURI
+	cfg         c17Cfg
+	root        string
+	m           *samlsp.Middleware
+	t0          time.Time
+	notchT      []time.Time
+	delay       time.Duration
+	memo        map[string]*c17Reply
+	users       []string
+	urls        []string
+	impl        int
+	artifactGET bool              // artifacts reach the ACS in the query string of a GET
+	artifacts   map[string][]byte // artifact value -> the Response the stub resolver hands out (configurations "...+artifact")
+	dflt        string            // where a login without RelayState lands: the library default "/" or a configured DefaultRedirectURI
 }
 
 type c17Reply struct {
@@ -149,6 +150,7 @@ func newC17World(cf c17Cfg) *c17World {
 	if artifact {
 		// responses travel by reference: the browser carries SAMLart, the middleware resolves it through this stub IdP back channel
 		w.artifacts = map[string][]byte{}
+		w.artifactGET = cf.binding == "redirect+artifact"
 		m.ServiceProvider.HTTPClient = &http.Client{Transport: rtFunc(func(r *http.Request) (*http.Response, error) {
 			body, _ := io.ReadAll(r.Body)
 			id := ""
@@ -233,6 +235,15 @@ func (w *c17World) do(notch int, method, target string, cookies map[string]strin
 	rep.body = rec.Body.Bytes()
 	w.memo[mk] = rep
 	return rep
+}
+
+// acs brings a response to the assertion consumer service the way the configured binding does: a form POST, or - for the artifact binding
+// of configuration "redirect+artifact" - the GET redirect an IdP answers with (SAMLart and RelayState in the query string).
+func (w *c17World) acs(notch int, cookies map[string]string, form url.Values, seed string) *c17Reply {
+	if w.artifactGET {
+		return w.do(notch, "GET", "/saml/acs?"+form.Encode(), cookies, nil, seed)
+	}
+	return w.do(notch, "POST", "/saml/acs", cookies, form, seed)
 }
 
 // applyCookies updates the browser jar from a reply.
@@ -678,7 +689,7 @@ func c17Deliver(w *c17World, s *c17State, k int, rs, rsName string, cookies map[
 	if rs != "" {
 		form.Set("RelayState", rs)
 	}
-	rep := w.do(s.notch, "POST", "/saml/acs", cookies, form, "deliver")
+	rep := w.acs(s.notch, cookies, form, "deliver")
 	if rep.panic != "" {
 		return []string{"deliver/panic|" + rep.panic}
 	}
@@ -802,7 +813,7 @@ func c17Unsolicited(w *c17World, s *c17State, variant string, started int, rs, r
 	if rs != "" {
 		form.Set("RelayState", rs)
 	}
-	rep := w.do(s.notch, "POST", "/saml/acs", cookies, form, "unsolicited")
+	rep := w.acs(s.notch, cookies, form, "unsolicited")
 	if rep.panic != "" {
 		return []string{"unsolicited/panic|" + rep.panic}
 	}
